@@ -1,1 +1,5 @@
+pub mod async_adv;
+pub mod chunk;
+pub mod faulty;
+pub mod gate;
 pub mod sink;
